@@ -11,7 +11,7 @@ OPSRC = {"isnot": "is not", "notin": "not in"}
 
 # ---- chain operands -------------------------------------------------------------------------
 CH_DOM = ["m1", "i0", "i1", "f0", "f1", "T", "sa", "sb", "ba", "N", "W"]
-CH_DOM3 = {"quick": ["m1", "i1", "f1", "sa", "ba", "W"], "thorough": ["m1", "i0", "i1", "f1", "T", "sa", "ba", "N", "W"]}
+CH_DOM3 = {"quick": ["m1", "i1", "sa", "ba", "W"], "thorough": ["m1", "i0", "i1", "f1", "T", "sa", "ba", "N", "W"]}
 CH_DOM4 = {"quick": ["i0", "i1", "sa", "W"], "thorough": ["i0", "i1", "sa", "N", "W"]}
 TY_DOM = {"i": ["m1", "i0", "i1"], "d": ["f0", "f1"], "s": ["sa", "sb", "N"], "y": ["ba", "N"]}
 TY_DECL = {"o": "", "i": "int ", "d": "double ", "s": "str ", "y": "bytes "}
@@ -21,6 +21,7 @@ C_TYPED = ("i", "d")
 # ---- membership -----------------------------------------------------------------------------
 XM = ["m1", "i0", "i1", "i2", "f1", "T", "sa", "ba", "N", "W", "nan", "U"]
 MM = ["i0", "i1", "f1", "T", "sa", "ba", "N", "W", "nan"]
+MM2Q = ["i0", "i1", "f1", "sa", "N", "W", "nan"]
 MM3 = {"quick": ["i1", "sa", "W", "nan"], "thorough": ["i1", "f1", "sa", "N", "W", "nan"]}
 MLIT = ["m1", "i0", "i1", "f1", "T", "sa", "ba", "N"]
 LIT_SRC = {"m1": "-1", "i0": "0", "i1": "1", "i2": "2", "f0": "0.0", "f1": "1.0", "T": "True",
@@ -227,7 +228,7 @@ def member_shapes(tier, rng):
             for n in range(0, 4):
                 if kind == "set" and n == 0:
                     continue
-                mdom = MM if n <= 2 else MM3[tier]
+                mdom = (MM2Q if (tier == "quick" and n == 2) else MM) if n <= 2 else MM3[tier]
                 for form in ("name", "leaf"):
                     if tier == "quick" and n == 3 and (form == "name") != (kind in ("tuple", "set")):
                         continue
